@@ -50,7 +50,7 @@ EXTRA = [
     ("AurelVerif.Props.C06c",
      ["AurelVerif.C06." + t for t in (
          "nup4_succ", "gammaup4_succ", "normalOK_of_code", "rhoN_einstein_eq", "fluxN_einstein_eq", "fluxN_spatial",
-         "Hamiltonian_eq_Gnn", "Hamiltonian_zero_of_einstein", "Hamiltonian_vacuum_zero_of_einstein",
+         "s_RicciS_is_double_contraction", "Hamiltonian_eq_Gnn", "Hamiltonian_zero_of_einstein", "Hamiltonian_vacuum_zero_of_einstein",
          "Momentumup3_eq_Gni", "Momentumup3_zero_of_einstein", "Momentumup3_vacuum_zero_of_einstein",
          "momentum_div_lowered", "constraints_zero_of_einstein", "exGC_normalOK", "exGC_gaussCodazzi", "exGC_ricci",
          "exGC_ricciS", "exGC_einstein")]
@@ -70,7 +70,7 @@ NEEDED = ["Hamiltonian", "Momentumup3", "Momentumx", "Momentumy", "Momentumz", "
           "dtgammadown3_bssnok", "dtAdown3_bssnok", "dts_Gamma_bssnok", "rho_n", "fluxup3_n", "Stressup3_n",
           "Stressdown3_n", "Stresstrace_n", "Lie_beta_scalar", "Lie_beta_s_uu", "Lie_beta_w_s_dd", "s_covd_uu", "trace3",
           "tracefree3", "gammaup3", "gammadet", "Ktrace", "Kup3", "Adown3", "gammaup4", "nup4",
-          "Aup3", "s_Gamma_bssnok", "s_Gamma_udd3_bssnok", "s_Gamma_udd3", "gup4", "gdown4", "ndown4", "betadown3", "betamag", "gtt"]
+          "Aup3", "s_Gamma_bssnok", "s_Gamma_udd3_bssnok", "s_Gamma_udd3", "s_RicciS", "s_Ricci_down3", "s_Riemann_down3", "gup4", "gdown4", "ndown4", "betadown3", "betamag", "gtt"]
 LEAN_FILES = ["AurelVerif/Props/C06.lean", "AurelVerif/Lemmas/C06Deriv.lean", "AurelVerif/Spec/ADM.lean",
               "AurelVerif/Spec/Covd.lean", "AurelVerif/Props/C09.lean", "AurelVerif/Props/C08.lean",
               "AurelVerif/Gen/CoreKeys.lean", "AurelVerif/Gen/CoreCurv.lean", "AurelVerif/Gen/CoreHelpers.lean",
